@@ -1329,8 +1329,16 @@ __wrap_nni_plat_printf(const char *fmt, ...)
 void
 __wrap_nni_plat_abort(void)
 {
-	sim_finish_with("violation", sim_default_prop(), "panic",
-	    G.panic_msg[0] ? G.panic_msg : "nni_plat_abort");
+	// where the panic was raised: return addresses, symbolised by the driver
+	void  *site[8];
+	char   msg[448];
+	size_t o;
+	sim_fp_walk(site, 8, 2); // skip this wrapper and nni_panic
+	o = (size_t) snprintf(msg, sizeof(msg), "%s (at ", G.panic_msg[0] ? G.panic_msg : "nni_plat_abort");
+	for (int k = 0; k < 8 && site[k] != NULL && o + 24 < sizeof(msg); k++)
+		o += (size_t) snprintf(msg + o, sizeof(msg) - o, "%s%p", k ? "<" : "", site[k]);
+	snprintf(msg + o, sizeof(msg) - o, ")");
+	sim_finish_with("violation", sim_default_prop(), "panic", msg);
 }
 
 } // extern "C"
